@@ -7,10 +7,10 @@ cd "$wt" || exit 2
 git checkout -q -- . ; rm -f "$crate/tests/seed_demo.rs"
 mkdir -p "$crate/tests"; cp _seed/seed_demo.rs "$crate/tests/seed_demo.rs"
 echo "--- demo on clean tree"
-cargo test -p "$pkg" --offline --test seed_demo 2>&1 | grep -E "^test result|error" | head -3
+cargo test -p "$pkg" $SEED_FEATURES --offline --test seed_demo 2>&1 | grep -E "^test result|error" | head -3
 git apply _seed/patch.diff || { echo "PATCH DOES NOT APPLY"; exit 2; }
 echo "--- demo with patch"
-cargo test -p "$pkg" --offline --test seed_demo 2>&1 | grep -E "^test result|error" | head -3
+cargo test -p "$pkg" $SEED_FEATURES --offline --test seed_demo 2>&1 | grep -E "^test result|error" | head -3
 rm -f "$crate/tests/seed_demo.rs"; rmdir "$crate/tests" 2>/dev/null
 echo "--- full suite with patch"
 cargo test --workspace --offline 2>&1 | grep -E "^test result" | awk '{p+=$4; f+=$6} END {print "passed",p,"failed",f}'
